@@ -91,6 +91,8 @@ func symSink(R int) *fsState {
 	if hasActive {
 		st.actC = nondetString()
 		os.WriteFile(st.actName, []byte(st.actC), 0600)
+		// however long ago that was
+		verifAgeFile(st.actName)
 	}
 	// the clock is past every timestamp on disk
 	now := time.Now()
@@ -261,6 +263,11 @@ func H_C08_Process() {
 			// (re)opened the existing active file and no rotation can have followed (a freshly opened file has
 			// written 0 bytes; only a time limit could rotate it): strictly appended (st.actC is "" when there was none)
 			verifAssert(cur == st.actC+data, "C08.open.appends-to-existing-file")
+		}
+		if (s.TimestampOnlyOnRotate || !s.rotateEnabled()) && !(s.MaxDuration > 0 && tEnd.Sub(st.tStart) > s.MaxDuration) {
+			// the file was opened during this call, so it is no older than the call, however old what it already held is:
+			// no limit is reached and the event is appended to what the plain-named file held (st.actC is "" when there was none)
+			verifAssert(cur == st.actC+data, "C15.open.age-counts-from-opening")
 		}
 		verifReach("C08.process.opened")
 	}
